@@ -54,7 +54,13 @@ def audit_1d(rep, rec):
     rep.coverage["solid_balance_max_rel_error"] = max(rep.coverage.get("solid_balance_max_rel_error", 0.0), float(rel.max()))
     if rel.max() > 0.15:
         k = int(np.argmax(rel))
-        rep.violation("solid-balance", "%s: at t=%r s the enthalpy changed by %r J/m2 since nucleation but %r J/m2 crossed the boundaries (%.1f %% of the total)" % (
+        # known finding (known_findings.json): in a TALL, STRONGLY cooled vial (height >= 0.08 m, K >= 400 W/m2K) that is only partly supercooled at
+        # nucleation, the freezing front then moves through liquid that was above T_eq_l: a grid point that crosses T_eq_l within a step gets the
+        # ice of its overshoot without the latent heat having been removed (the supercooling masks switch after the step): 15-30 % of the
+        # heat removed so far.  Any other regime, or a larger error, is reported under the plain key.
+        partly = bool((T[ie] >= c["T_eq"] + 273.15 - c["depression"]).any())
+        tall = c["height"] >= 0.08 - 1e-12 and K >= 400 and partly and rel.max() <= 0.30
+        rep.violation("solid-balance front-crossing tall vial" if tall else "solid-balance", "%s: at t=%r s the enthalpy changed by %r J/m2 since nucleation but %r J/m2 crossed the boundaries (%.1f %% of the total)" % (
             lab, t[rows[k]], dH[k], q[k], 100 * rel[k]), dict(run=lab, row=int(rows[k])))
 
 
@@ -110,6 +116,17 @@ def check(rep, tier):
     recs = sr.catalogue(rng, tier, dims=("spatial_1D", "spatial_2D"), confs=None, n1=3 if tier == "quick" else 9, n2=0)
     recs += sr.catalogue(rng, tier, dims=("spatial_1D",), confs=["VISF"], n1=1, late_vacuum=True)
     recs += sr.catalogue(rng, tier, dims=("spatial_1D",), confs=["VISF", "shelf"], n1=1 if tier == "quick" else 2, repoint=True)
+    # always: the input of the known finding (tall, strongly cooled vial, partly supercooled at nucleation; known_findings.json)
+    try:
+        progT = dict(start=10, end=-45, rate=2.0 / 60, holds=[], t_tot=25316.0, dt=1.0)
+        exT = {"VISF": {"t_vac_start": 0.75, "t_vac_duration": 0.1, "kappa": 0.05}, "solution": {"solid_fraction": 0.02}}
+        ST = sr.make(dim="spatial_1D", conf="VISF", height=0.08, diameter=0.05, K=400, prog=progT, extra=exT)
+        dtT, _ = sr.step_info(ST)
+        recT = dict(label="spatial_1D/VISF h=0.08 d=0.05 K=400 2 K/min from 10 C, 2 % solute, vacuum 0.75 h + 0.1 h (known finding input)", dim="spatial_1D", conf="VISF", S=ST, dt=dtT, prog=progT, error=None, must_complete=True)
+        sr.run(ST)
+    except Exception as e:
+        recT["error"] = e
+    recs.append(recT)
     # always: a 1D run with another solvent melting point and a concentrated solution (T_eq = 3.82 C, 20 % solute)
     try:
         progH = dict(start=15, end=-50, rate=2.0 / 60, holds=[], t_tot=3600.0, dt=1.0)
